@@ -8,6 +8,7 @@ import (
 	"math"
 	"reflect"
 	"strings"
+	"time"
 
 	fpgo "github.com/TeaEntityLab/fpGo/v2"
 	"verifharness/lib"
@@ -23,6 +24,18 @@ type label struct{ name string }
 func (l *label) String() string { return l.name }
 
 type wrappedStringer struct{ *label }
+
+// tag: a Stringer whose method tolerates a nil receiver (like *time.Location): a typed nil *tag is absent
+// all the same.
+type tag struct{ name string }
+
+func (t *tag) String() string {
+	if t == nil {
+		return "untagged"
+	}
+	return t.name
+}
+
 type E struct{}
 
 type val struct {
@@ -209,6 +222,15 @@ func obsVector(m fpgo.MaybeDef[interface{}], withConv bool) string {
 	return b.String()
 }
 
+type keptClone struct {
+	v     val
+	ctor  string
+	clone reflect.Value
+	want  string
+}
+
+var kept []keptClone
+
 func main() {
 	r := lib.NewReport("C01")
 	one, two := 1, 2
@@ -248,6 +270,8 @@ func main() {
 		{"Just(typed nil) as value", fpgo.Maybe.Just(nilInt)},
 		{"struct embedding a nil error", wrappedErr{}}, {"struct embedding a nil Stringer", wrappedStringer{}},
 		{"pointer to struct embedding a nil error", &wrappedErr{}}, {"error value", fmt.Errorf("boom")}, {"Stringer value", &label{"x"}},
+		{"typed nil pointer with a nil-tolerant String method", (*tag)(nil)}, {"pointer with a nil-tolerant String method", &tag{"t"}},
+		{"typed nil *time.Location", (*time.Location)(nil)},
 	}
 	var evals, nontrivial int
 	var samples lib.Samples
@@ -451,7 +475,10 @@ func main() {
 							if rv.Elem().Int() != before {
 								bad("clone", v, ct.name, "writing through the clone changed the original")
 							}
+							cp.Elem().SetInt(before)
 						}
+						// every clone is kept and looked at again after all later clones have been made
+						kept = append(kept, keptClone{v, ct.name, cp, fmt.Sprintf("%v", rv.Elem().Interface())})
 						return
 					}
 					if got, want := obsVector(c, true), obsVector(m, true); got != want {
@@ -460,6 +487,18 @@ func main() {
 				})
 			}
 		}
+		seenTargets := map[uintptr]string{}
+		for _, k := range kept {
+			evals++
+			if got := fmt.Sprintf("%v", k.clone.Elem().Interface()); got != k.want {
+				bad("clone|kept", k.v, k.ctor, "a clone made earlier reads %s after later clones were made, it was %s", got, k.want)
+			}
+			if other, dup := seenTargets[k.clone.Pointer()]; dup {
+				bad("clone|kept", k.v, k.ctor, "two clones share one pointer target (the other one: %s)", other)
+			}
+			seenTargets[k.clone.Pointer()] = k.ctor + " of " + k.v.name
+		}
+		kept = nil
 		// JustGenerics[T] at concrete T
 		evals += generics(r)
 	}
